@@ -63,7 +63,7 @@ def plan(tier):
 
 def required_regimes(tier):
     return {'layout:negative_alias', 'layout:o_after_ri', 'layout:ri_before_spatial', 'skip:some', 'skip:all', 'include:some',
-            'include:all', 'prefix', 'inverse_layout', 'odd_size', 'skip+include', 'masks:list', 'masks:tuple', 'masks:ndarray'}
+            'include:all', 'prefix', 'inverse_layout', 'odd_size', 'skip+include', 'masks:list', 'masks:tuple', 'masks:ndarray', 'variant:no_grad'}
 
 
 def expected_layout(D, o, r):
@@ -160,6 +160,19 @@ def run(item):
                 continue
             res.regime(*tags)
             res['ophashes'].append(common.sha(cfg))
+            try:
+                with torch.no_grad():
+                    yl_n, yh_n = DTCWTForward(biort=b, qshift=q, J=J, o_dim=o, ri_dim=r, skip_hps=skip_arg, include_scale=inc_arg)(X)
+                same = len(yh_n) == len(yh) and all(a_.shape == b_.shape and torch.equal(a_, b_) for a_, b_ in zip(yh_n, yh))
+                ln, lg = (list(yl_n) if isinstance(yl_n, (list, tuple)) else [yl_n]), (list(yl) if isinstance(yl, (list, tuple)) else [yl])
+                same = same and len(ln) == len(lg) and all(a_.shape == b_.shape and torch.equal(a_, b_) for a_, b_ in zip(ln, lg))
+                res.regime('variant:no_grad')
+                if not same:
+                    res.violation('forward_options', dict(cfg, variant='no_grad'), {'kind': 'value_or_shape', 'what': 'result under no_grad differs from the result with autograd enabled'}, tags)
+                    continue
+            except Exception as e:
+                res.violation('forward_options', dict(cfg, variant='no_grad'), {'kind': 'raise', 'exc': repr(e)[:200]}, tags)
+                continue
             bad = None
             # highpasses: layout / skip
             if not isinstance(yh, (list, tuple)) or len(yh) != J:
